@@ -160,7 +160,7 @@ def gen_request(rng, spec, m, codec):
         elif n in ("page_size", "max_results"):
             if rng.random() < 0.7:
                 if f["type"] == "message":
-                    val[n] = {"value": rng.randint(1, 50)}
+                    val[n] = {"value": "10" if f.get("type_name", "").endswith("StringValue") else rng.randint(1, 50)}
                 elif f["type"] in INT_TYPES:
                     val[n] = rng.randint(1, 50)
                 elif f["type"] == "string":
@@ -628,4 +628,12 @@ def signature(spec, scenario, rule):
         for fs, s, m, cls in list_methods(spec):
             if cls is not None and cls["items"]["type"] == "enum" and not cls["items"].get("map"):
                 return "paged response whose first repeated field is an enum"
+        from ..world import find_message
+        for fs, s, m, cls in list_methods(spec):
+            if cls is not None and cls["items"].get("map") and cls["items"]["map"]["value"]["type"] in ("message", "enum"):
+                vt = cls["items"]["map"]["value"]["type_name"]
+                home = next((f["name"] for f in spec["files"] for mm in f.get("messages", []) + f.get("enums", [])
+                             if "." + f["package"] + "." + mm["name"] == vt), None)
+                if home is not None and home != fs["name"]:
+                    return "map-typed paged field whose value type is defined in another file"
     return rule
